@@ -22,7 +22,8 @@ EXTENDS Integers, Sequences, FiniteSets
 CONSTANTS
   KD,                    \* key divisor
   ResetFastOnClear,      \* TRUE = repaired
-  TruncateChunkOnClear   \* TRUE = repaired
+  TruncateChunkOnClear,  \* TRUE = repaired
+  FastPathAutoClean      \* TRUE = repaired: AutoClean also honoured when the sort stayed in memory (C13)
 
 Key(v) == v \div KD
 IsMin(v, S) == v \in S /\ \A w \in S : Key(v) <= Key(w)
@@ -43,14 +44,16 @@ RemoveAt(fs, i) == [j \in 1..(Len(fs) - 1) |-> IF j < i THEN fs[j] ELSE fs[j + 1
 (*   pool      number of buffers waiting in m.pool (capacity 2)            *)
 (*   fast, pos, len as in the code                                         *)
 (***************************************************************************)
-InitState(cs, ac, conc) ==
-  [cs |-> cs, ac |-> ac, chunkNil |-> FALSE, chunk |-> {}, pulled |-> {},
+InitState(cs, ac, conc, acl) ==
+  [cs |-> cs, ac |-> ac, acl |-> acl, conc |-> conc, chunkNil |-> FALSE, chunk |-> {}, pulled |-> {},
    files |-> <<>>, pool |-> IF conc THEN 1 ELSE 0, fast |-> FALSE,
-   pos |-> 0, len |-> 0]
+   pos |-> 0, len |-> 0,
+   disk |-> 0,       \* run files present in the temporary directory
+   dir |-> TRUE]     \* the temporary directory exists
 
 \* write(): the chunk becomes a run; its buffer goes back to the pool.
 SpillOf(s) ==
-  [s EXCEPT !.files = Append(@, s.chunk), !.pool = @ + 1]
+  [s EXCEPT !.files = Append(@, s.chunk), !.pool = @ + 1, !.disk = @ + 1]
 
 \* Push: a full chunk is spilled first, the caller takes a buffer from the pool.
 CanPush(s) == ~s.chunkNil
@@ -74,6 +77,7 @@ FinaliseOf(s) ==
 
 ClearOf(s) ==
   LET b == [s EXCEPT !.files = <<>>, !.pos = 0, !.len = 0, !.pulled = {},
+                     !.disk = @ - Len(s.files),         \* Close + os.Remove of every run still registered
                      !.fast = IF ResetFastOnClear THEN FALSE ELSE @]
   IN IF b.pool > 0
        THEN [b EXCEPT !.pool = @ - 1, !.chunkNil = FALSE, !.chunk = {}]
@@ -97,7 +101,9 @@ PullOf(s, v) ==
       LET i == CHOOSE j \in 1..Len(s.files) : v \in s.files[j]
           r == s.files[i] \ {v}
       IN [s EXCEPT !.pos = @ + 1,
-                   !.files = IF r = {} THEN RemoveAt(@, i) ELSE [@ EXCEPT ![i] = r]]
+                   !.files = IF r = {} THEN RemoveAt(@, i) ELSE [@ EXCEPT ![i] = r],
+                   \* an exhausted run is closed, and removed from disk only under AutoClear
+                   !.disk = IF r = {} /\ s.ac THEN @ - 1 ELSE @]
 
 IsEOF(s) == Candidates(s) = {}
 
@@ -105,5 +111,10 @@ PullEOFOf(s) ==
   LET t == IF s.fast /\ ~s.chunkNil
              THEN [s EXCEPT !.pool = @ + 1, !.chunkNil = TRUE, !.chunk = {}, !.pulled = {}]
              ELSE s
-  IN IF t.ac THEN ClearOf(t) ELSE t
+      u == IF t.ac THEN ClearOf(t) ELSE t
+  IN IF u.acl /\ (FastPathAutoClean \/ ~s.fast)
+       THEN [u EXCEPT !.dir = FALSE, !.disk = 0]          \* os.RemoveAll(m.dir)
+       ELSE u
+
+CleanUpOf(s) == [s EXCEPT !.dir = FALSE, !.disk = 0]
 =============================================================================
